@@ -104,8 +104,8 @@ func parseSingleConstraint(c string) ([]*constraint, error) {
 		return parseWildcardConstraint(c)
 	}
 
-	// Handle comparison operators
-	operators := []string{">=", "<=", "!=", "<>", ">", "<", "=", "=="}
+	// Handle comparison operators (longer operators first, so that "==" is not read as "=")
+	operators := []string{">=", "<=", "!=", "<>", "==", ">", "<", "="}
 	for _, op := range operators {
 		if strings.HasPrefix(c, op) {
 			versionStr := strings.TrimSpace(c[len(op):])
